@@ -16,6 +16,7 @@ Validated input and output of tabular data in various formats.
 # You should have received a copy of the GNU Lesser General Public License
 # along with this program.  If not, see <http://www.gnu.org/licenses/>.
 import itertools
+import sys
 
 from cutplace import _compat, data, errors, interface, rowio
 from cutplace import _verif
@@ -431,6 +432,7 @@ def validate(cid_or_path, data_stream_or_path, validate_until=None):
     with Reader(cid_or_path, data_stream_or_path, validate_until=validate_until) as reader:
         rows_to_validate = reader.rows()
         if validate_until is not None:
-            rows_to_validate = itertools.islice(rows_to_validate, validate_until)
+            # Note: islice() cannot count beyond sys.maxsize, and neither can any data hold as many rows.
+            rows_to_validate = itertools.islice(rows_to_validate, min(validate_until, sys.maxsize))
         for _ in rows_to_validate:
             pass
